@@ -16,7 +16,8 @@ def directed():
     rset = {"op": "rollout_set", "name": b"web", "pct": 0, "allow": [b"alice", b"carol"]}
     pause = {"op": "pause", "name": b"web", "fail_after": SEC}
     stop = {"op": "stop", "name": b"web", "msg": m4.MESSAGES[1 % len(m4.MESSAGES)]}
-    states = [[], [pause], [stop], [rdep([b"tc:8080"])], [rdep([b"tc:8080"]), rset], [rdep([b"tc:8080"]), rset, pause],
+    pause0 = {"op": "pause", "name": b"web", "fail_after": 0}      # max-pause 0: every request times out at once (504)
+    states = [[], [pause], [pause0], [stop], [rdep([b"tc:8080"])], [rdep([b"tc:8080"]), rset], [rdep([b"tc:8080"]), rset, pause],
               [rdep([b"tc:8080"]), rset, {"op": "rollout_stop", "name": b"web"}]]
     follow = [[{"op": "resume", "name": b"web"}], [stop, {"op": "resume", "name": b"web"}], [pause, {"op": "resume", "name": b"web"}],
               [rset], [{"op": "rollout_set", "name": b"web", "pct": 100, "allow": []}], [{"op": "rollout_stop", "name": b"web"}],
